@@ -53,4 +53,8 @@ theorem curv_tria_c (v0 v1 v2 v3 p0 p1 p2 p3 q0 q1 q2 q3 : V3 ℝ) (c0 c1 c2 c3 
 /-- `curvature_tria(smoothit)` calls `curvature(smoothit)` exactly once -/
 theorem curv_tria_smooth : Gen.CurvTria.smoothSeen = [5] := by decide
 
+
+/-! ### census of data-dependent decisions: the traced code took exactly the branches the model knows about -/
+theorem census_CurvTria_pcCount : Gen.CurvTria.pcCount = 8 := rfl
+
 end LapyVerif.Bridge
